@@ -68,7 +68,7 @@ pub fn differential(ctx: &Ctx, rep: &mut Report) {
     }
     // search leg: counter strings until the reference stream has shown the exact boundary
     // chunks (61444 accepted, 61445 rejected) often enough
-    let n = ctx.sz(40_000, 1_500_000);
+    let n = ctx.sz(40_000, 8_000_000);
     let r = par_for(16, ncpu(), |w, rep| {
         let mut rng = rng_for(ctx.seed, &format!("c14-search-{}", w));
         for i in 0..n / 16 {
